@@ -698,7 +698,7 @@ def _run_chunk(ctx, gen, hists, do_model, state):
             for (l, r), o in zip(checks, outs):
                 # " IR!" / " IH!" are drv_c06's own cross-checks of C06's source transcriptions (Gen/C06.lean, which this
                 # check does not regenerate): not part of the classification
-                while o.endswith((" IR!", " IH!")):
+                while o.endswith((" IR!", " IH!", " IS!")):
                     o = o[:-4]
                 if r != o:
                     ctx.mismatch("classify", {"line": l[:800]}, r[:300], o[:300])
